@@ -40,8 +40,9 @@ VARIABLES l,      \* next record
           nsteps, \* core/task records compared
           viol,   \* property monitors that failed: <<name, line of the run boundary>>
           have,   \* [node -> keys written to the node's store by the mempool Processor (batch digests)]
-          seen    \* [node -> verified votes and timeouts the node has been given (or cast itself)]
-tvars == <<vars, l, div, ndiv, lst, nsteps, viol, have, seen>>
+          seen,   \* [node -> verified votes and timeouts the node has been given (or cast itself)]
+          mp      \* [node -> own: batches it sealed, acks: <<digest, acker>> acknowledgements that reached it, rel: batches released]
+tvars == <<vars, l, div, ndiv, lst, nsteps, viol, have, seen, mp>>
 
 InitLst == [r |-> 1, lv |-> 0, lc |-> 0, hq |-> Genesis]
 
@@ -51,6 +52,7 @@ TInit ==
   /\ lst = [n \in Honest |-> InitLst]
   /\ have = [n \in Honest |-> {}]
   /\ seen = [n \in Honest |-> [votes |-> {}, tos |-> {}]]
+  /\ mp = [n \in Honest |-> [own |-> {}, acks |-> {}, rel |-> {}]]
 
 -----------------------------------------------------------------------------
 \* normal form of effects, shared by model and log
@@ -184,7 +186,7 @@ CoreStep(e) ==
      /\ nsteps' = nsteps + 1
      /\ viol' = viol \cup AvailViol(n, e) \cup CertViol(n, e)
      /\ seen' = [seen EXCEPT ![n] = SeenAfter(n, e)]
-     /\ UNCHANGED <<proposals, votes, timeouts, tcs, have>>
+     /\ UNCHANGED <<proposals, votes, timeouts, tcs, have, mp>>
 
 TaskStep(e) ==
   LET n == e.node  s0 == ns[n] IN
@@ -212,7 +214,7 @@ TaskStep(e) ==
             /\ UNCHANGED hist
        [] OTHER -> UNCHANGED <<ns, hist>> /\ NoDiverge
   /\ nsteps' = nsteps + 1
-  /\ UNCHANGED <<proposals, votes, timeouts, tcs, delivered, lst, viol, have, seen>>
+  /\ UNCHANGED <<proposals, votes, timeouts, tcs, delivered, lst, viol, have, seen, mp>>
 
 \* The properties are the formulas of HotStuff.tla.  They are monotone in the history, so it is enough
 \* to evaluate them when a run is complete (the next record is a reset or the end marker).
@@ -240,11 +242,26 @@ Reset ==
   /\ lst' = [n \in Honest |-> InitLst]
   /\ have' = [n \in Honest |-> {}]
   /\ seen' = [n \in Honest |-> [votes |-> {}, tos |-> {}]]
+  /\ mp' = [n \in Honest |-> [own |-> {}, acks |-> {}, rel |-> {}]]
   /\ UNCHANGED <<div, ndiv, nsteps>>
 
-Skip == UNCHANGED <<vars, div, ndiv, lst, nsteps, viol, have, seen>>
-End == viol' = viol \cup BoundaryViol /\ UNCHANGED <<vars, div, ndiv, lst, nsteps, have, seen>>
-Stored(e) == have' = [have EXCEPT ![e.node] = @ \cup {e.digest}] /\ UNCHANGED <<vars, div, ndiv, lst, nsteps, viol, seen>>
+Skip == UNCHANGED <<vars, div, ndiv, lst, nsteps, viol, have, seen, mp>>
+End == viol' = viol \cup BoundaryViol /\ UNCHANGED <<vars, div, ndiv, lst, nsteps, have, seen, mp>>
+\* C12 at system level (full-node runs): a batch this node sealed is handed on (QWRelease) only when its own stake plus the
+\* stake of the distinct authorities whose acknowledgement had reached it is a quorum, and is stored as deliverable only after that
+Stored(e) ==
+  /\ have' = [have EXCEPT ![e.node] = @ \cup {e.digest}]
+  /\ viol' = IF e.digest \in mp[e.node].own /\ e.digest \notin mp[e.node].rel THEN viol \cup {<<"C12.OwnBatchStoredAfterQuorum", l>>} ELSE viol
+  /\ UNCHANGED <<vars, div, ndiv, lst, nsteps, seen, mp>>
+MpEvent(e) ==
+  LET n == e.node IN
+  /\ CASE e.k = "Seal" -> mp' = [mp EXCEPT ![n].own = @ \cup {e.digest}] /\ UNCHANGED viol
+       [] e.k = "BatchAck" -> mp' = [mp EXCEPT ![n].acks = @ \cup {<<e.digest, e.by>>}] /\ UNCHANGED viol
+       [] e.k = "QWRelease" ->
+            LET ackers == {a \in Node : <<e.digest, a>> \in mp[n].acks} \ {n} IN
+            /\ mp' = [mp EXCEPT ![n].rel = @ \cup {e.digest}]
+            /\ viol' = IF Stake[n] + SumStake(ackers) >= Quorum THEN viol ELSE viol \cup {<<"C12.ReleasedWithQuorumOfAcks", l>>}
+  /\ UNCHANGED <<vars, div, ndiv, lst, nsteps, have, seen>>
 
 TNext ==
   /\ l <= Len(Rec)
@@ -255,6 +272,7 @@ TNext ==
          [] e.t = "core" /\ e.node \in Honest -> CoreStep(e)
          [] e.t = "task" /\ e.node \in Honest -> TaskStep(e)
          [] e.t = "mp" /\ e.k = "BatchStored" /\ e.node \in Honest -> Stored(e)
+         [] e.t = "mp" /\ e.k \in {"Seal", "BatchAck", "QWRelease"} /\ e.node \in Honest -> MpEvent(e)
          [] OTHER -> Skip
 
 TSpec == TInit /\ [][TNext]_tvars
